@@ -81,6 +81,14 @@ class Path:
             return True
         if z3.is_false(cond):
             return False
+        if self.guards:
+            # evaluation of a lazily defined sequence element under its range guard: must be deterministic
+            g = z3.And(*self.guards) if len(self.guards) > 1 else self.guards[0]
+            if self.check_sat(z3.And(g, cond)) == "unsat":
+                return False
+            if self.check_sat(z3.And(g, z3.Not(cond))) == "unsat":
+                return True
+            raise Unsupported(f"data-dependent branch ({desc or cond}) inside a lazily evaluated sequence element")
         if self.pos < len(self.decisions):
             d = self.decisions[self.pos]
             self.pos += 1
